@@ -289,3 +289,6 @@ fn verif_enum_header_validation() {
     if chain[0].verify_adjacent_range(&broken).is_ok() { println!("WITNESS C02: verify_adjacent_range accepts a chain with a missing header"); panic!("witness"); }
     println!("ENUM-OK cases={cases}");
 }
+mod verif_blob_roundtrip {
+    include!(concat!(env!("LUMINA_VERIF_DIR"), "/native/types/blob_roundtrip.rs"));
+}
